@@ -39,6 +39,10 @@ type Monitor struct {
 	Require []string
 	// MemLimitKB is applied to workers with ulimit -v (0 = default 4 GB, negative = no limit).
 	MemLimitKB int
+	// MemDeathIsViolation: a worker that dies of memory exhaustion under the limit
+	// is a finding of this monitor (C04: the decoder must refuse a forged count
+	// before allocating for it); otherwise such a death is re-run without the limit.
+	MemDeathIsViolation bool
 	// Special, if set, replaces the generic parent (used by the race monitor).
 	Special func(p *Parent) int
 	// Extra runs in the parent after all classes (e.g. coverage-guided fuzzing in
